@@ -30,7 +30,7 @@ BOUNDED = {
     r'islands\.build': 'archipelagos of 1 and 3 islands (every seed)',
     r'draws_not_memoised': 'call chains inside pyxel/models up to depth 6',
 }      # unit-name / obligation-name patterns -> the family these obligations are proved for
-TRUSTED = ["determinism of everything that is not the legacy global generator (numba kernels, dask graph construction, pygmo given its seeds)",
+TRUSTED = ["determinism of everything that is not a random generator (numba kernels WITHOUT draws: unit numba.draws lists those with draws; dask graph construction, pygmo given its seeds)",
            "np.random.Generator objects (default_rng) are private state; on the call chain of a seeded model they must be seeded from a number (obligation model.private_generator_seeded), elsewhere (calibration start seed drawn at random when none is given) they are outside", "threads sharing the global generator (dask threaded scheduler) are outside the sequential semantics (C07)",
            "model.frame / no_reseed / flow are frame and data-flow obligations decided on the AST and call graph (no arithmetic involved)"]
 
@@ -438,6 +438,61 @@ VIOLATED = pickle.dumps(np.random.get_state()) != before
 DETAIL = 'process-wide generator changed by the model: ' + repr(VIOLATED)
 """, "expect": "a model never leaves the generator re-seeded"})
     u.static("no_reseed.cover", True, "", f"{len(sites)} direct np.random.seed call sites outside util/randomize.py")
+
+
+NUMBA_REPLAY = lambda w: {"code": """
+import numpy as np
+from pyxel.detectors import CCD, CCDGeometry, Characteristics, Environment
+from pyxel.pipelines import DetectionPipeline, ModelFunction, Processor
+from pyxel.exposure import Readout, run_pipeline
+WHERE = %r
+def run(model, args, rows=4, cols=4, bucket='pixel'):
+    det = CCD(geometry=CCDGeometry(row=rows, col=cols), environment=Environment(), characteristics=Characteristics())
+    groups = dict(photon_collection=[ModelFunction(func='pyxel.models.photon_collection.illumination', name='ill', arguments={'level': 50.0})],
+        charge_generation=[ModelFunction(func='pyxel.models.charge_generation.simple_conversion', name='sc', arguments={'quantum_efficiency': 1.0, 'binomial_sampling': False})],
+        charge_collection=[ModelFunction(func='pyxel.models.charge_collection.simple_collection', name='col')])
+    group = 'photon_collection' if '.photon_collection.' in model else ('charge_generation' if '.charge_generation.' in model else 'charge_transfer')
+    groups.setdefault(group, [])
+    groups[group] = groups[group] + [ModelFunction(func=model, name='m', arguments=args)]
+    r = run_pipeline(processor=Processor(detector=det, pipeline=DetectionPipeline(**groups)), readout=Readout(times=[1.0]), outputs=None, pipeline_seed=1234, debug=False, with_inherited_coords=False)
+    return np.array(r[bucket]).copy()
+SCEN = {'emccd_poisson.py': [('pyxel.models.charge_transfer.multiplication_register', {'total_gain': 100, 'gain_elements': 10}, 4, 4)],
+        'emccd_poisson_cic.py': [('pyxel.models.charge_transfer.multiplication_register_cic', {'total_gain': 100, 'gain_elements': 10, 'pcic_rate': 0.1, 'scic_rate': 0.01}, 4, 4)],
+        'shot_noise.py': [('pyxel.models.photon_collection.shot_noise', {'type': 'poisson'}, 4, 4), ('pyxel.models.photon_collection.shot_noise', {'type': 'poisson'}, 2064, 2064)]}
+VIOLATED, DETAIL = False, 'no prepared scenario for ' + WHERE
+for key, scen in SCEN.items():
+    if key in WHERE:
+        DETAIL = 'seeded pipelines through ' + key + ' are reproducible'
+        for model, args, rows, cols in scen:
+            a, b = run(model, args, rows, cols), run(model, args, rows, cols)
+            if not np.array_equal(a, b):
+                VIOLATED, DETAIL = True, f'pipeline_seed=1234, model {model} on a {rows}x{cols} detector, run twice in one process: pixel {a.ravel()[:3]} vs {b.ravel()[:3]} ({int((a != b).sum())} pixels differ)'
+""" % (w.get("function", ""),), "expect": "with a pipeline seed, repeating the run gives identical results (draws made inside numba-compiled code follow numba's own generator, which numpy.random.seed does not reach)"}
+
+
+@unit("C04", "numba.draws")
+def numba_draws(u: Unit):
+    """Draws made INSIDE numba-compiled functions (numpy.random.* under @numba.njit / jit) come from numba's own per-thread generator: neither
+    numpy.random.seed nor set_state (the seed context) reaches it. Every such function is a draw site that a pipeline seed does not govern:
+    one obligation per site (the premise 'numba kernels are deterministic' of the other C04 units is checked here, not assumed). A site
+    that seeds numba's generator itself inside the compiled code (np.random.seed(value) there, single-threaded kernel) is accepted."""
+    n = 0
+    for mi in u.world.all_modules():
+        fns = list(mi.functions.values()) + [m for c in mi.classes.values() for m in c.methods.values()]
+        for fn in fns:
+            if not any(("jit" in d or "numba" in d) for d in fn.decorators):
+                continue
+            n += 1
+            draws = sorted({ast.unparse(c.func) for c in ast.walk(fn.node) if isinstance(c, ast.Call) and ast.unparse(c.func).startswith(("np.random.", "numpy.random.", "random."))
+                            and not ast.unparse(c.func).endswith(".seed")})
+            seeds = [c for c in ast.walk(fn.node) if isinstance(c, ast.Call) and ast.unparse(c.func) in ("np.random.seed", "numpy.random.seed")]
+            if not draws:
+                continue
+            u.functions.setdefault(fn.qualname, {"sha": fn.sha, "file_sha": fn.module.sha, "paths": 0, "obligations": 0, "role": "under contract"})
+            tag = f"{mi.relpath.split('/')[-1]}::{fn.name}"
+            u.static(f"numba.draws_follow_the_seed[{tag}]", bool(seeds) and not any("parallel=True" in d for d in fn.decorators), fn.qualname, f"{', '.join(draws)} inside a numba-compiled function: drawn from numba's generator, not from the seeded numpy generator",
+                     witness={"function": fn.qualname, "draws": draws}, replay=NUMBA_REPLAY)
+    u.static("numba.draws.cover", n >= 5, "", f"{n} numba-compiled functions scanned")
 
 
 @unit("C04", "flow")
